@@ -1,0 +1,12 @@
+//go:build verif
+
+package retriever
+
+// VerifCrashHook is called at every crash point when set (verification harness only, build tag verif).
+var VerifCrashHook func(point string)
+
+func verifCrashPoint(point string) {
+	if VerifCrashHook != nil {
+		VerifCrashHook(point)
+	}
+}
